@@ -151,6 +151,7 @@ def check_native(prop, spec, tier, seed, replay=None):
     sut = build.Sut()
     drv = [build.driver_obj(s) for s in spec['drivers']]
     shims = [sut.shim_obj(s, extra=spec.get('shim_flags', {}).get(s, ())) for s in spec.get('shims', [])]
+    shims += [sut.repo_obj(s) for s in spec.get('repo_srcs', [])]
     exe = build.link_worker(sut, prop.lower(), drv, shims, with_lib=spec.get('with_lib', True), libs=spec.get('libs', ()))
     if spec.get('prebuild'):
         spec['prebuild'](sut)
